@@ -79,7 +79,7 @@ def facet_envs(cellname, gdim=None, complex_mode=False, facets=None, salt=0, whi
                 X0,
                 facet=f,
                 fields=FieldData(salt=salt + f, complex_mode=complex_mode),
-                name=f"{cellname}{gdim}d facet {f}",
+                name=f"{cellname}{gdim}d facet {f}" + (f" [vertex set {which}, orientation {orientation}]" if which or orientation != 1 else ""),
             )
         )
     return out
@@ -94,14 +94,14 @@ APEX = {
 }
 
 
-def interior_facet_envs(cellname, gdim=None, complex_mode=False, salt=0, facets=None, perms=None):
+def interior_facet_envs(cellname, gdim=None, complex_mode=False, salt=0, facets=None, perms=None, which=0, orientation=1):
     """Two-sided environments: '+' cell, facet f, and a neighbour '-' sharing that facet."""
     tdim = TDIM[cellname]
     gdim = gdim or tdim
-    verts = VERTS[(cellname, gdim)][0]
+    verts = VERTS[(cellname, gdim)][which % len(VERTS[(cellname, gdim)])]
     out = []
     for f in facets if facets is not None else range(tdim + 1):
-        cp = ConcreteCell(cellname, verts)
+        cp = ConcreteCell(cellname, verts, orientation=orientation)
         # apex on the other side of the facet: reflect the opposite vertex through the facet centroid
         fv = cp.facet_vertices(f)
         (opp,) = [v for v in range(tdim + 1) if v not in fv]
@@ -123,7 +123,7 @@ def interior_facet_envs(cellname, gdim=None, complex_mode=False, salt=0, facets=
                     {"+": Xp, "-": Xm},
                     facet={"+": f, "-": f2},
                     fields=FieldData(salt=salt + 10 * f + pi, complex_mode=complex_mode),
-                    name=f"{cellname}{gdim}d interior facet {f}/{f2}",
+                    name=f"{cellname}{gdim}d interior facet {f}/{f2}" + (f" [vertex set {which}, orientation {orientation}]" if which or orientation != 1 else ""),
                 )
             )
     return out
